@@ -1,4 +1,4 @@
 def run(ctx):
-    from . import plan_proofs
+    from . import plan_proofs, validate_proofs
 
-    return plan_proofs.run(ctx)
+    return plan_proofs.run(ctx) + " " + validate_proofs.run(ctx, "C19")
